@@ -194,7 +194,7 @@ def run(ck):
     cases = [ck.replaying["case"]] if ck.replaying else gen_cases(ck)
     reqs, pending, keep = [], [], []
     for case in cases:
-        keep.append(run_case(ck, case, reqs, pending))
+        keep.append(ck.guard(case, run_case, ck, case, reqs, pending))
     resps = ck.driver(reqs)
     for p, resp in zip(pending, resps):
         if p[0] == "aug":
